@@ -446,6 +446,29 @@ def _read_fasta(ctx, f):
     ctx.check(ok, "C16b-decoy-pairing", f,
               "every non-decoy protein is paired with decoy_prefix + its "
               "name", why, node=de[0].node if de else call[0])
+    # has_decoys summarises the loop over the proteins ("some target's
+    # decoy is in the file"): a flag that is set inside a loop may only
+    # ever be raised there - assigning it the result of this iteration's
+    # test makes it the answer for the last protein only
+    hd = kw.get("has_decoys")
+    bad_hd = []
+    if hd is not None and hd[0] == "var":
+        for d in T.var_defs.get(hd, []):
+            if d.node is None:
+                continue
+            if cfg.enclosing(d.node, (ast.For, ast.While)) is None:
+                continue
+            v = T.of_def(d)
+            if v != ("const", True):
+                bad_hd.append((getattr(d.node, "lineno", "?"),
+                               show(v, 60)))
+    ctx.check(not bad_hd, "C16b-has-decoys-is-a-latch", f,
+              "has_decoys is only ever raised inside the loop over the "
+              "proteins",
+              f"has_decoys is assigned (line, value) {bad_hd} inside the "
+              "loop: it ends up describing the last protein visited, and "
+              "a database with decoys can be treated as target-only",
+              node=call[0])
     ok = (kw.get("decoy_prefix") == ("param", "decoy_prefix")
           and set(kw) == {"decoy_prefix", "peptide_map", "shared_peptides",
                           "protein_map", "has_decoys"})
